@@ -27,6 +27,8 @@ type countingCtx struct {
 	done     chan struct{}
 	closed   bool
 	sites    map[string]int
+	// how the context ended: context.Canceled (default) or context.DeadlineExceeded
+	endErr error
 }
 
 func newCountingCtx(cancelAt int) *countingCtx {
@@ -62,6 +64,9 @@ func (c *countingCtx) Err() error {
 		if !c.closed {
 			close(c.done)
 			c.closed = true
+		}
+		if c.endErr != nil {
+			return c.endErr
 		}
 		return context.Canceled
 	}
@@ -292,29 +297,36 @@ func faultOneMode(run *core.Run, sc *Scenario, w *World, from *Node, slot uint64
 	}
 	// every cancellation point
 	for i := 0; i < P; i++ {
-		n := from.Branch()
-		w.Eng.Reset()
-		err, pm := apply(n, newCountingCtx(i))
-		atomic.AddInt64(&st.Runs, 1)
-		atomic.AddInt64(&st.CancelPoints, 1)
-		if pm != "" {
-			rep("panic/cancelled", fmt.Sprintf("context cancelled from poll %d of %d on: %s", i, P, pm))
-		} else if err == nil {
-			rep("cancellation-swallowed", fmt.Sprintf("context cancelled from poll %d of %d on, but the transition reports success", i, P))
+		for _, kind := range []error{context.Canceled, context.DeadlineExceeded} { // a context ends by cancel() or by its deadline
+			n := from.Branch()
+			w.Eng.Reset()
+			cctx := newCountingCtx(i)
+			cctx.endErr = kind
+			err, pm := apply(n, cctx)
+			atomic.AddInt64(&st.Runs, 1)
+			atomic.AddInt64(&st.CancelPoints, 1)
+			if pm != "" {
+				rep("panic/cancelled", fmt.Sprintf("context ended (%v) from poll %d of %d on: %s", kind, i, P, pm))
+			} else if err == nil {
+				rep("cancellation-swallowed", fmt.Sprintf("context ended (%v) from poll %d of %d on, but the transition reports success", kind, i, P))
+			}
 		}
 	}
 	// every engine verdict vector (3^E, E small), which includes every single-call fault
-	if E > 0 && E <= 5 {
+	// verdict kinds: 0 valid, 1 invalid, 2 plain error, 3 error wrapping context.Canceled, 4 error wrapping
+	// context.DeadlineExceeded (an engine client that timed out on its own, while the caller's context is alive)
+	const kinds = 5
+	if E > 0 && E <= 4 {
 		total := 1
 		for i := 0; i < E; i++ {
-			total *= 3
+			total *= kinds
 		}
 		for v := 1; v < total; v++ {
 			vec := make([]int, E)
 			x := v
 			for i := range vec {
-				vec[i] = x % 3
-				x /= 3
+				vec[i] = x % kinds
+				x /= kinds
 			}
 			n := from.Branch()
 			w.Eng.Reset()
@@ -325,6 +337,10 @@ func faultOneMode(run *core.Run, sc *Scenario, w *World, from *Node, slot uint64
 						return false, nil
 					case 2:
 						return false, errors.New("engine unavailable (injected)")
+					case 3:
+						return false, fmt.Errorf("engine request failed: %w", context.Canceled)
+					case 4:
+						return false, fmt.Errorf("engine request failed: %w", context.DeadlineExceeded)
 					}
 				}
 				return true, nil
@@ -334,9 +350,9 @@ func faultOneMode(run *core.Run, sc *Scenario, w *World, from *Node, slot uint64
 			atomic.AddInt64(&st.Runs, 1)
 			atomic.AddInt64(&st.EngineFaults, 1)
 			if pm != "" {
-				rep("panic/engine-fault", fmt.Sprintf("engine verdicts %v (0=valid,1=invalid,2=error): %s", vec, pm))
+				rep("panic/engine-fault", fmt.Sprintf("engine verdicts %v (0=valid,1=invalid,2=error,3=error wrapping context.Canceled,4=error wrapping DeadlineExceeded): %s", vec, pm))
 			} else if err == nil {
-				rep("engine-fault-swallowed", fmt.Sprintf("engine verdicts %v (0=valid,1=invalid,2=error) over calls %v, but the transition reports success", vec, methods(plainCalls)))
+				rep("engine-fault-swallowed", fmt.Sprintf("engine verdicts %v (0=valid,1=invalid,2=error,3=error wrapping context.Canceled,4=error wrapping DeadlineExceeded) over calls %v, but the transition reports success", vec, methods(plainCalls)))
 			}
 		}
 	}
